@@ -57,7 +57,7 @@ class TimedTask {
    **/
   void cancel() {
     impl_->timesToRun.store(0, std::memory_order_release);
-    impl_->flags.fetch_or(detail::kFFlagsCancelled, std::memory_order_release);
+    impl_->flags.fetch_or(detail::kFFlagsCancelled, std::memory_order_seq_cst);
   }
 
   /**
@@ -90,7 +90,7 @@ class TimedTask {
       return;
     }
     cancel();
-    while (impl_->inProgress.load(std::memory_order_acquire)) {
+    while (impl_->inProgress.load(std::memory_order_seq_cst)) {
     }
     // Now we can safely destroy the underlying function.  We do this here because we can't risk
     // that func may call code in it's destructor that may no longer be relevant after this
